@@ -1016,7 +1016,7 @@ COMPONENTS = {
 }
 
 TIERS = {
-    'quick': {'runs': 34000, 'wall_cap': 300},
+    'quick': {'runs': 30000, 'wall_cap': 300},
     'thorough': {'runs': 600000, 'wall_cap': 3000},
 }
 EXPECTED_PROBES = ['insert-in-the-middle', 'auto-category-added', 'filter-of-derived', 'extend-of-derived',
